@@ -127,7 +127,7 @@ func checkConnCommands(cl sim.ConnSnap, serverID uint32, want hist.Pos) (string,
 }
 
 func checkC07(c *core.Ctx) {
-	c.SetRule("configurations: server ids {0,1,2^31-1,2^31,2^32-1,random} x file names {1 byte, 255 bytes, dots, digits, spaces, UTF-8, random printable} x offsets {4,2^31-1,2^31,2^32-1,random} (half chosen so that no byte of the offset equals the byte of the server id at the same position), sequences of 1..4 attempts on one streamer with SetBinlogPosition or the stored position in between; the master answers the dump with EOF; plus real histories streamed to EOF and a second attempt that must request the stored resume position. Oracle on every connection: SET @master_binlog_checksum before the dump, exactly one dump, one connection per Stream call, blocking flag, server id, file bytes, uint32 offset. distinct by configuration; non-trivial iff offset != 4 or server id >= 2^31 or >= 2 attempts")
+	c.SetRule("configurations: server ids {0,1,2^31-1,2^31,2^32-1,random} x file names {1 byte, 255 bytes, dots, digits, spaces, UTF-8, random printable} x offsets {4,2^31-1,2^31,2^32-1,random} (half chosen so that no byte of the offset equals the byte of the server id at the same position), sequences of 1..4 attempts on one streamer with SetBinlogPosition or the stored position in between; the master answers the dump with EOF; plus real histories streamed to EOF and a second attempt that must request the stored resume position. Oracle on every connection: SET @master_binlog_checksum before the dump, exactly one dump per Stream call (over all connections it opened), blocking flag, server id, file bytes, uint32 offset. distinct by configuration; non-trivial iff offset != 4 or server id >= 2^31 or >= 2 attempts")
 	if c.Replay != "" {
 		var w struct {
 			Witness struct {
@@ -238,11 +238,13 @@ func c07Run(c *core.Ctx, scn c07Scn) {
 			c.Cell("stream-not-returned(reported under C05)")
 			return
 		}
-		if res.ConnsMade != 1 {
-			c.Violation("c07:connections-per-stream", fmt.Sprintf("attempt %d made %d connections", ai, res.ConnsMade), wit())
+		// exactly one dump request per Stream call, over however many
+		// connections the library chose to open for it
+		if res.DumpsMade != 1 || res.DumpConn == nil {
+			c.Violation("c07:dump-requests-per-stream", fmt.Sprintf("attempt %d issued %d binlog-dump requests over %d connection(s)", ai, res.DumpsMade, res.ConnsMade), wit())
 			return
 		}
-		if key, msg := checkConnCommands(res.Conn.Snapshot(), scn.ServerID, cur); key != "" {
+		if key, msg := checkConnCommands(res.DumpConn.Snapshot(), scn.ServerID, cur); key != "" {
 			c.Violation("c07:"+key, fmt.Sprintf("attempt %d (server id %d, position %q,%d): %s", ai, scn.ServerID, cur.File, cur.Off, msg), wit())
 			return
 		}
